@@ -42,7 +42,9 @@ claim("C01",
       "disk write is never reported as success), that the piece bit / Done flag are set only in the handler of a verified "
       "and successfully written piece, and whole-program whitelists of the functions that may write to storage or set "
       "Piece.Done; that a block received from a peer is copied to exactly its offset in the piece buffer and only when it "
-      "is a block of the piece with the announced length (otherwise the buffer is untouched); and that the web-seed "
+      "is a block of the piece with the announced length (otherwise the buffer is untouched), that the torrent hands a "
+      "block only to the downloader that owns that piece for that peer and the completed piece to the writer with the "
+      "downloader's own buffer, that a web-seed piece is written only if it is not already done; and that the web-seed "
       "downloader releases a buffer only while it owns it (ghost ownership across its function literals); that the "
       "on-disk verifier sets a piece's bit only after the hash check accepted exactly that piece's full-length read. Partial: "
       "goroutine interleavings, SHA-1 collision freeness and storage semantics are outside.",
